@@ -1,6 +1,7 @@
 package main
 
 import (
+	"go/constant"
 	"go/token"
 	"go/types"
 	"sort"
@@ -334,6 +335,10 @@ func valueUsed(v ssa.Value) bool {
 			if b, ok := y.Call.Value.(*ssa.Builtin); ok && b.Name() == "len" {
 				continue
 			}
+			// a one-expression predicate of the module that asks whether its argument is empty (isSet(x)): measuring too
+			if x, _, ok := emptyTestOf(y, true); ok && x == v {
+				continue
+			}
 		case *ssa.BinOp:
 			if y.Op == token.EQL || y.Op == token.NEQ {
 				if _, isK := y.Y.(*ssa.Const); isK {
@@ -386,7 +391,7 @@ func hasJSONTags(st *types.Struct) bool {
 // ---- GN-TEXT ----------------------------------------------------------------------------------------------------
 
 func init() {
-	register(&Rule{Name: "GN-TEXT", Floor: 4, Run: ruleGnText,
+	register(&Rule{Name: "GN-TEXT", Floor: 3, Run: ruleGnText,
 		Doc: "where a configured general name {type, name} becomes a certificate-side name, the text converted (to a dNSName, rfc822Name or URI, or split into the octets of an iPAddress) is the field the schema calls `name`, and the field the kinds are told apart by is the one it calls `type` - never the other way round"})
 }
 
@@ -437,7 +442,32 @@ func ruleGnText(c *Ctx, r *Rep) {
 					n++
 					jn := jsonName(st, f)
 					r.Check(jn == "name", sprintf("name-text|%s#%d", c.FuncKey(fn), n), c.Pos(ins.Pos()), "the text of a "+nt.Obj().Name()+" is the configured `name`", "field ."+f.Name()+" (json `"+jn+"`)")
+				case *ssa.Lookup:
+					// the discriminator as the key of a table of kinds
+					if _, isMap := x.X.Type().Underlying().(*types.Map); !isMap {
+						continue
+					}
+					_, f, st := fieldRead(x.Index)
+					if f == nil || !isGnStruct(st) {
+						continue
+					}
+					n++
+					jn := jsonName(st, f)
+					r.Check(jn == "type", sprintf("kind-by-type|%s#%d", c.FuncKey(fn), n), c.Pos(ins.Pos()), "the kinds of general names are looked up by the configured `type`", "field ."+f.Name()+" (json `"+jn+"`) as the key of a table")
 				case *ssa.Call:
+					if x.Call.StaticCallee() == nil && !x.Call.IsInvoke() {
+						// the constructor of the kind, taken from a table: the text it is given
+						for _, a := range x.Call.Args {
+							_, f, st := fieldRead(a)
+							if f == nil || !isGnStruct(st) {
+								continue
+							}
+							n++
+							jn := jsonName(st, f)
+							r.Check(jn == "name", sprintf("name-text|%s#%d", c.FuncKey(fn), n), c.Pos(ins.Pos()), "the text handed to the constructor of the kind is the configured `name`", "field ."+f.Name()+" (json `"+jn+"`)")
+						}
+						continue
+					}
 					if calleeFullName(x) != "strings.Split" || len(x.Call.Args) != 2 {
 						continue
 					}
@@ -530,23 +560,60 @@ func ruleSubjectOrder(c *Ctx, r *Rep) {
 				}
 				n++
 				judged++
-				// index == len(list) - i - 1, in either association
+				// index == len(list) - i - 1, however it is associated and whether or not a one-line helper computes it: the
+				// expression is brought into the form a*len(list) + b*i + k
+				type lin struct{ l, i, k int64 }
+				var linOf func(v ssa.Value, bind map[*ssa.Parameter]*lin, d int) *lin
+				linOf = func(v ssa.Value, bind map[*ssa.Parameter]*lin, d int) *lin {
+					if d > 6 {
+						return nil
+					}
+					if v == loop.idx {
+						return &lin{0, 1, 0}
+					}
+					if x, ok := lenOperand(v); ok && x == ssa.Value(mk) {
+						return &lin{1, 0, 0}
+					}
+					switch x := v.(type) {
+					case *ssa.Const:
+						if x.Value != nil && x.Value.Kind() == constant.Int {
+							return &lin{0, 0, x.Int64()}
+						}
+					case *ssa.Parameter:
+						return bind[x]
+					case *ssa.BinOp:
+						a, b := linOf(x.X, bind, d+1), linOf(x.Y, bind, d+1)
+						if a == nil || b == nil {
+							return nil
+						}
+						switch x.Op {
+						case token.ADD:
+							return &lin{a.l + b.l, a.i + b.i, a.k + b.k}
+						case token.SUB:
+							return &lin{a.l - b.l, a.i - b.i, a.k - b.k}
+						}
+					case *ssa.Call:
+						g := x.Call.StaticCallee()
+						if g == nil || !c.InModule(g) || len(g.Blocks) != 1 {
+							return nil
+						}
+						ret, ok := lastInstr(g.Blocks[0]).(*ssa.Return)
+						if !ok || len(ret.Results) != 1 {
+							return nil
+						}
+						nb := map[*ssa.Parameter]*lin{}
+						for j, prm := range g.Params {
+							if j < len(x.Call.Args) {
+								nb[prm] = linOf(x.Call.Args[j], bind, d+1)
+							}
+						}
+						return linOf(ret.Results[0], nb, d+1)
+					}
+					return nil
+				}
 				okIdx := false
-				isLenOfList := func(v ssa.Value) bool {
-					x, ok := lenOperand(v)
-					return ok && x == ssa.Value(mk)
-				}
-				isOne := func(v ssa.Value) bool {
-					k, ok := v.(*ssa.Const)
-					return ok && k.Value != nil && k.Int64() == 1
-				}
-				if o, ok := ia.Index.(*ssa.BinOp); ok && o.Op == token.SUB {
-					if in, ok := o.X.(*ssa.BinOp); ok && in.Op == token.SUB && isOne(o.Y) {
-						okIdx = isLenOfList(in.X) && in.Y == loop.idx // (len - i) - 1
-					}
-					if in, ok := o.X.(*ssa.BinOp); ok && in.Op == token.SUB && o.Y == loop.idx {
-						okIdx = okIdx || (isLenOfList(in.X) && isOne(in.Y)) // (len - 1) - i
-					}
+				if f := linOf(ia.Index, nil, 0); f != nil {
+					okIdx = f.l == 1 && f.i == -1 && f.k == -1
 				}
 				r.Check(okIdx, sprintf("reversed-place|%s#%d", c.FuncKey(f), n), c.Pos(st.Pos()), "the place written is len(list) - i - 1 for the loop's own index i", "index "+ia.Index.String())
 			}
